@@ -20,7 +20,7 @@ ASSUMPTIONS = [
 ]
 MANIFEST = {'text': 'proof (over-approximating effect analysis + all normal paths) of: each plugin writes at most its allowed DltMessage fields (never index, reception time, lifecycle; '
                     'ecu/payload only in the anonymiser; timestamp only in rewrite), only iterators write index and only lifecycle code writes lifecycle, decoders return true, '
-                    'file-transfer returns false only behind !keep_flda, and the plugin stage neither drops (except on false), duplicates nor reorders. Added: the pseudonym tables are keyed by the id bytes themselves (no printed / parsed / normalised key).'}
+                    'file-transfer returns false only behind !keep_flda, and the plugin stage neither drops (except on false), duplicates nor reorders. Added: the pseudonym tables are keyed by the id bytes themselves (no printed / parsed / normalised key). Added: the file-transfer plugin decides the package type on decoded arguments, never on raw payload bytes. Added: of the extended header the anonymiser rewrites only APID and CTID.'}
 
 PLUGIN_TRAIT = 'adlt::plugins::plugin::Plugin'
 ALLOWED = {
@@ -94,6 +94,10 @@ def run(F, chk):
     check_pseudonym_keys(F, E5)
     E8 = chk.rule('E8', 'anonymiser: the number in a new pseudonym is exactly (size of the table it is recorded in) + 1, so no two ids of a table share a pseudonym')
     check_pseudonym_numbers(F, E8)
+    E11 = chk.rule('E11', 'anonymiser: of the extended header only APID and CTID are rewritten - the type byte (verbose bit, message type, request / response, log level) and the argument count stay as recorded (lifecycle detection and control-message handling of the anonymised trace read them)')
+    check_anonymiser_header_fields(F, E11)
+    E10 = chk.rule('E10', 'file-transfer plugin: whether a message is a FLST / FLDA / FLFI package is decided on its decoded arguments (first and last argument from the argument iterator), never on raw payload bytes at computed offsets')
+    check_type_test_on_args(F, E10)
     E9 = chk.rule('E9', 'anonymiser: the pseudonym tables are keyed by the original id bytes themselves (no string round trip / normalisation of the key: distinct ids stay distinct)')
     check_table_keys_verbatim(F, E9)
     E6 = chk.rule('E6', 'plugins (rewrite excepted) store a whole extended header into a message only when it has none')
@@ -113,6 +117,73 @@ def run(F, chk):
             per_msg_facts=['plugin_false'])
         lin.run_linearity(b, spec, E4, L2, L7, min_recv=1, min_send=1, F=F)
         effects.check_may_write(F, E1, b.path, set().union(*ALLOWED.values()) | DEFAULT_ALLOWED, what='the plugin stage')
+
+
+def check_anonymiser_header_fields(F, E11):
+    """"an anonymised trace has the same structure": which messages are control requests (their timestamps are the logger's and
+    are ignored by lifecycle detection), which are responses, verbose or not, how many arguments they carry - all of that
+    sits in verb_mstp_mtin and noar.  The anonymiser replaces ids and text; a store into any other field of the extended
+    header changes how the anonymised trace is interpreted."""
+    import json
+    n = 0
+    w = 0
+    for b in F.order:
+        if b.crate != 'lib' or 'plugins::anonymize::' not in b.path or '::tests::' in b.path:
+            continue
+        E11.fn(b.path)
+        for blk in b.blocks:
+            if blk.cleanup:
+                continue
+            for s_ in blk.stmts:
+                if s_.k != 'assign':
+                    continue
+                fl = [e for e in s_.place.p if e['k'] == 'f' and e.get('o') == 'adlt::dlt::DltExtendedHeader']
+                if not fl:
+                    continue
+                w += 1
+                E11.sites += 1
+                if fl[-1]['n'] in ('apid', 'ctid'):
+                    E11.ok(sample={'writes': 'extended_header.' + fl[-1]['n'], 'at': b.loc(s_.sp)})
+                else:
+                    n += 1
+                    E11.violation(('anonymiser-rewrites-header-structure', b.path, fl[-1]['n']), '%s stores into extended_header.%s at %s: message type / request-response role / verbosity / argument count of the anonymised message differ from the original, so lifecycle detection and control-message handling treat it differently' %
+                                  (b.path, fl[-1]['n'], b.loc(s_.sp)), where=b.loc(s_.sp))
+    E11.floor('stores into the extended header by the anonymiser', w, 2)
+
+
+def check_type_test_on_args(F, E10):
+    """"only file-transfer data packages may be removed": the plugin drops what `is_type(msg, "FLDA")` accepts.  The protocol
+    marks a package by its first and its last *argument* being the 4-character tag.  Looking for the tag at the tail of the raw
+    payload instead accepts any message whose last argument merely ends with those bytes - an ordinary log line is then taken
+    for a data package and removed."""
+    import json
+    n = 0
+    found = False
+    for b in F.order:
+        if b.crate != 'lib' or not re.search(r'plugins::file_transfer::FileTransferPlugin::is_type$', b.path):
+            continue
+        found = True
+        E10.fn(b.path)
+        it = [blk for blk in b.calls() if blk.term.callee.path.endswith('DltMessage::into_iter') or blk.term.callee.path.endswith('IntoIterator::into_iter') or 'DltMessageArgIterator' in (blk.term.dest.t or '')]
+        E10.floor('argument iterators in is_type', len(it), 1)
+        last = [blk for blk in b.calls() if re.search(r'Iterator::(last|next_back|nth|next)$', blk.term.callee.path)]
+        E10.floor('argument accesses (next / last) in is_type', len(last), 2)
+        for x in [b] + list(F.closures_of(b.path)):
+            for blk in x.blocks:
+                if blk.cleanup:
+                    continue
+                hit = [s_ for s_ in blk.stmts if s_.k == 'assign' and re.search(r'"n": "payload", "o": "adlt::dlt::DltMessage"', json.dumps(s_.d))]
+                if blk.term.k == 'call' and any(re.search(r'"n": "payload", "o": "adlt::dlt::DltMessage"', json.dumps(a.d)) for a in blk.term.args):
+                    hit.append(blk.term)
+                for h in hit:
+                    n += 1
+                    E10.sites += 1
+                    E10.violation(('type-test-on-raw-payload', x.path), '%s reads the raw payload of the message at %s: the package type is a property of the first and last decoded argument, a tag found at a byte offset of the payload can belong to the inside of another argument' %
+                                  (x.path, x.loc(h.sp)), where=x.loc(h.sp))
+        if n == 0:
+            E10.ok(sample={'type_test': b.path, 'decided_on': 'first and last argument of the argument iterator'})
+    if not found:
+        E10.violation(('anchor-lost', 'FileTransferPlugin::is_type'), 'FileTransferPlugin::is_type not found')
 
 
 def check_returns(body, name, E3):
